@@ -123,6 +123,9 @@ func genC08(g *Gen) {
 	for c := 0; c < g.N(800, 30000); c++ {
 		g.Case("bw", J{"s": bytesJ(randBytes(r, r.Intn(41))), "n": widths[r.Intn(4)]})
 	}
+	for c := 0; c < g.N(300, 10000); c++ { // runs of equal bytes (zeros, 0xff ...) of 8 / 16 bytes, aligned or not
+		g.Case("bw", J{"s": bytesJ(runBytes(r, 9+r.Intn(40))), "n": widths[r.Intn(4)]})
+	}
 	for c := 0; c < g.N(600, 20000); c++ {
 		n := widths[r.Intn(4)]
 		ws := make([]int64, r.Intn(40))
@@ -288,6 +291,9 @@ func execBSUpto(in In, em *Emitter) {
 var bsBytes = []byte{0x00, 0x80, 0xff, 0x7f, 'a', 0x01, 0xfe, 0x40}
 
 func bsString(r *rand.Rand, n int) []byte {
+	if n >= 9 && r.Intn(6) == 0 {
+		return runBytes(r, n)
+	}
 	b := make([]byte, n)
 	for i := range b {
 		if r.Intn(4) == 0 {
